@@ -212,8 +212,9 @@ def rs_opaque(prog, name, oid):
     return "%s(%d)" % (name, oid)
 
 
-def rs_val(prog, t, v):
-    """Rust expression constructing value v of (return) type t; borrowed things are leaked"""
+def rs_val(prog, t, v, leak=True):
+    """Rust expression constructing value v of (return) type t; borrowed things are leaked, or (leak=False) temporaries that
+    live to the end of the enclosing statement"""
     k = t[0]
     if k == "prim":
         return rs_lit(t[1], v)
@@ -221,7 +222,7 @@ def rs_val(prog, t, v):
         return "%s::%s" % (t[1], v)
     if k == "struct":
         it = ir.find_item(prog, t[1])
-        return "%s { %s }" % (t[1], ", ".join("%s: %s" % (f[0], rs_val(prog, f[1], v[f[0]])) for f in it["fields"]))
+        return "%s { %s }" % (t[1], ", ".join("%s: %s" % (f[0], rs_val(prog, f[1], v[f[0]], leak)) for f in it["fields"]))
     if k == "box":
         return "Box::new(%s)" % rs_opaque(prog, t[1], v["id"])
     if k == "ref":
@@ -229,11 +230,13 @@ def rs_val(prog, t, v):
     if k == "opt":
         if v is None:
             return "None" if t[2] == "std" or t[1][0] in ("ref", "box") else "Option::None.into()"
-        inner = rs_val(prog, t[1], v["some"])
+        inner = rs_val(prog, t[1], v["some"], leak)
         return "Some(%s)" % inner if t[2] == "std" or t[1][0] in ("ref", "box") else "Some(%s).into()" % inner
     if k == "slice":
         elems = ", ".join(rs_lit(t[3], x) for x in v["elems"])
         e = "(&*Box::leak(vec![%s].into_boxed_slice()))" % elems if v["elems"] else "(&[] as &[%s])" % rs_prim_ty(t[3])
+        if not leak and v["elems"]:
+            e = "(&vec![%s][..])" % elems
         return e if t[4] == "std" else "(%s).into()" % e
     if k == "str":
         if t[2] == "str16":
@@ -242,10 +245,17 @@ def rs_val(prog, t, v):
             e = "(&*Box::leak(String::from_utf8(vec![%s]).unwrap().into_boxed_str()) as &str)" % ", ".join("%du8" % b for b in v["bytes"])
         else:
             e = "(&*Box::leak(vec![%s].into_boxed_slice()) as &[u8])" % ", ".join("%du8" % b for b in v["bytes"]) if v["bytes"] else "(&[] as &[u8])"
+        if not leak:
+            if t[2] == "str16" and v["units"]:
+                e = "(&vec![%s][..] as &[u16])" % ", ".join("0x%xu16" % u for u in v["units"])
+            elif t[2] == "utf8":
+                e = "(String::from_utf8(vec![%s]).unwrap().as_str())" % ", ".join("%du8" % b for b in v["bytes"])
+            elif t[2] == "str8" and v["bytes"]:
+                e = "(&vec![%s][..] as &[u8])" % ", ".join("%du8" % b for b in v["bytes"])
         return e if t[3] == "std" else "(%s).into()" % e
     if k == "result":
         arm = t[1] if v["ok"] else t[2]
-        inner = "()" if arm[0] == "unit" else rs_val(prog, arm, v["v"])
+        inner = "()" if arm[0] == "unit" else rs_val(prog, arm, v["v"], leak)
         e = ("Ok(%s)" if v["ok"] else "Err(%s)") % inner
         return e if t[3] == "std" else "Result::from(%s).into()" % e if False else (e if t[3] == "std" else "(%s).into()" % e)
     if k == "unit":
@@ -343,6 +353,7 @@ def method_body(prog, mid, it, m, calls, reject=None):
         if t[0] == "write":
             continue
         if t[0] == "cb":
+            post.append("let mut %s = %s;" % (name, name))
             continue
         parts.append('format!("%s={}", %s)' % (name, rs_ser(prog, t, name)))
         if t[0] == "slice" and t[2]:
@@ -360,8 +371,17 @@ def method_body(prog, mid, it, m, calls, reject=None):
     arms = []
     for k, c in enumerate(calls):
         stmts = ""
+        for q in m["params"]:
+            if q[1][0] != "cb":
+                continue
+            for j, inv in enumerate(c.get("cbs", {}).get(q[0], [])):
+                call = "%s(%s)" % (q[0], ", ".join(rs_val(prog, a, v, leak=False) for a, v in zip(q[1][1], inv["args"])))
+                if q[1][2][0] == "unit":
+                    stmts += '{ %s; dv_log(format!("cbret %d {} %s %d ()", __k)); } ' % (call, mid, q[0], j)
+                else:
+                    stmts += '{ let __r = %s; dv_log(format!("cbret %d {} %s %d {}", __k, %s)); } ' % (call, mid, q[0], j, rs_ser(prog, q[1][2], "__r"))
         if wparam:
-            stmts = "".join("core::fmt::Write::write_str(%s, %s).unwrap(); " % (wparam, rs_str(ch)) for ch in c["write"]["chunks"])
+            stmts += "".join("core::fmt::Write::write_str(%s, %s).unwrap(); " % (wparam, rs_str(ch)) for ch in c["write"]["chunks"])
         if m["ret"] is None:
             arms.append("%d => { %s }" % (k, stmts))
         else:
@@ -578,6 +598,7 @@ class CGen:
 
 
 C_HELPERS = '''#include <stdio.h>
+#include <stdlib.h>
 #include <string.h>
 #include <stdint.h>
 #include <stddef.h>
@@ -644,6 +665,14 @@ def almost_valid_utf8(draw):
     return base[:pos] + bad + base[pos:]
 
 
+def plan_callback(vg, draw, t):
+    """invocations Rust makes of one callback argument: values Rust passes and the value the foreign function answers"""
+    inv = []
+    for _ in range(draw(st.sampled_from([0, 1, 1, 2, 3]))):
+        inv.append({"args": [vg.value(a, "out") for a in t[1]], "ret": None if t[2][0] == "unit" else vg.value(t[2], "in")})
+    return inv
+
+
 def plan_calls(draw, prog, ncalls, bad_utf8=False):
     """draw call vectors for every (non-support) method. Returns list of (mid, mod, it, impl, m, [call])"""
     vg = ValueGen(draw, prog)
@@ -665,6 +694,8 @@ def plan_calls(draw, prog, ncalls, bad_utf8=False):
             for q in m["params"]:
                 if q[1][0] == "write":
                     c["write"] = vg.value(["write"], "in")
+                elif q[1][0] == "cb":
+                    c.setdefault("cbs", {})[q[0]] = plan_callback(vg, draw, q[1])
                 elif q[1][0] != "cb":
                     c["args"][q[0]] = vg.value(q[1], "in")
                     if bad_utf8 and q[1][0] == "str" and q[1][2] == "utf8" and draw(st.integers(0, 2)) == 0:
@@ -702,8 +733,9 @@ def render_rust(prog, plan, reject=None):
 def render_c(prog, plan, protos, header_names, history=None, fixed_writers=True):
     """history: None, or {"order": [(plan index, call index)], "destroy_after": {step: [(type, id)]}, "final": [(type, id)]}"""
     ms = methods_in_order(prog)
-    src = C_HELPERS + "static void* dv_pool[4096];\n" + "".join('#include "%s"\n' % h for h in header_names)
-    src += "int main(void) {\n  setvbuf(stdout, NULL, _IONBF, 0);\n"
+    head = C_HELPERS + "static void* dv_pool[4096];\n" + "".join('#include "%s"\n' % h for h in header_names)
+    top = []        # file-scope callback functions
+    src = "int main(void) {\n  setvbuf(stdout, NULL, _IONBF, 0);\n"
     # layouts as seen by C
     for mod in prog["modules"]:
         for it in mod["items"]:
@@ -766,6 +798,11 @@ def render_c(prog, plan, protos, header_names, history=None, fixed_writers=True)
                     else:
                         g.pre.append("DiplomatWrite* %s = diplomat_buffer_write_create(%d);" % (wvar, c["write"]["cap"]))
                     args.append(wvar)
+                elif q[1][0] == "cb":
+                    uid = "%d_%d_%s" % (p_["mid"], k, q[0])
+                    top.append(c_callback(prog, protos, uid, q[1], c.get("cbs", {}).get(q[0], []), cty))
+                    g.pre.append("int* dv_cbn_%s = (int*)malloc(sizeof(int)); *dv_cbn_%s = 0;" % (uid, uid))   # freed by the destructor: LSan/ASan see a missing or repeated call
+                    args.append("(%s){ .data = dv_cbn_%s, .run_callback = dv_cb_%s, .destructor = dv_cbd_%s }" % (cty, uid, uid, uid))
                 else:
                     args.append(g.arg(q[1], c["args"][q[0]], cty))
             src += "  {\n"
@@ -803,7 +840,103 @@ def render_c(prog, plan, protos, header_names, history=None, fixed_writers=True)
         for ty, oid in history["final"]:
             src += "  %s((%s*)dv_pool[%d]);\n" % (dtor_of[ty], ty, oid - 1000)
     src += "  dv_log_dump();\n  dv_drops_dump();\n  return 0;\n}\n"
-    return src
+    return head + "\n".join(top) + "\n" + src
+
+
+def c_type(t, g=None):
+    if t[0] == "prim":
+        return C_PRIM[t[1]]
+    if t[0] in ("enum", "struct"):
+        return t[1]
+    if t[0] == "unit":
+        return "void"
+    if t[0] == "opt":
+        return g.opt_type(t[1])
+    if t[0] == "slice":
+        return "Diplomat%sView%s" % (VIEW[t[3]], "Mut" if t[2] else "")
+    if t[0] == "str":
+        return "DiplomatString16View" if t[2] == "str16" else "DiplomatStringView"
+    if t[0] == "box":
+        return t[1] + "*"
+    raise ValueError(t)
+
+
+def c_callback(prog, protos, uid, t, invocations, cty):
+    """file-scope C functions for one callback argument: prints what it receives, answers the planned values"""
+    g = CGen(prog, protos)
+    ret = c_type(t[2], g)
+    params = "".join(", %s a%d" % (c_type(a, g), i) for i, a in enumerate(t[1]))
+    out = "static %s dv_cb_%s(const void* data%s) {\n  int j = (*(int*)data)++;\n  printf(\"cbin %s %%d\", j);\n" % (ret, uid, params, uid)
+    for i, a in enumerate(t[1]):
+        out += '  printf(" a%d="); %s\n' % (i, g.show(a, "a%d" % i))
+    out += '  printf("\\n");\n'
+    if t[2][0] != "unit":
+        out += "  switch (j) {\n"
+        for j, inv in enumerate(invocations):
+            out += "    case %d: return %s;\n" % (j, g.arg(t[2], inv["ret"], None))
+        out += "  }\n  %s dv_zero; memset(&dv_zero, 0, sizeof(dv_zero)); return dv_zero;\n" % ret
+    out += "}\n"
+    out += 'static void dv_cbd_%s(const void* data) { printf("cbdrop %s %%d\\n", *(const int*)data); free((void*)data); }\n' % (uid, uid)
+    assert not g.pre and not g.post
+    return out
+
+
+def expected_callback_lines(prog, plan, history=None, reject=None):
+    """(C-side lines `cbin`/`cbdrop` in order, Rust-side `cbret` log lines in order)"""
+    ms = methods_in_order(prog)
+    cside, rside = [], []
+    if history is None:
+        sequence = [(pi, k) for pi, p_ in enumerate(plan) for k in range(len(p_["calls"]))]
+    else:
+        sequence = [tuple(x) for x in history["order"]]
+    accepted = {}
+    for pi_, k in sequence:
+        p_ = plan[pi_]
+        mod, it, impl, m = ms[pi_]
+        c = p_["calls"][k]
+        if reject is not None and reject(m, c):
+            continue
+        kk = accepted.get(pi_, 0)
+        accepted[pi_] = kk + 1
+        drops = []
+        for q in m["params"]:
+            if q[1][0] != "cb":
+                continue
+            uid = "%d_%d_%s" % (p_["mid"], k, q[0])
+            inv = c.get("cbs", {}).get(q[0], [])
+            for j, x in enumerate(inv):
+                cside.append(("cbin %s %d" % (uid, j)) + "".join(" a%d=%s" % (i, ser(prog, a, v)) for i, (a, v) in enumerate(zip(q[1][1], x["args"]))))
+                rside.append("cbret %d %d %s %d %s" % (p_["mid"], kk, q[0], j, "()" if q[1][2][0] == "unit" else ser(prog, q[1][2], x["ret"])))
+            drops.append("cbdrop %s %d" % (uid, len(inv)))
+        cside.append(sorted(drops))     # destruction order among one call's callbacks is not specified
+    return cside, rside
+
+
+def callback_fails(prog, plan, lines, **kw):
+    """callbacks: what the foreign function received, what Rust got back, and one destructor call per callback argument"""
+    exp_c, exp_r = expected_callback_lines(prog, plan, **kw)
+    got_c = [l for l in lines if l.startswith("cbin ") or l.startswith("cbdrop ")]
+    got_r = [l for l in lines if l.startswith("cbret ")]
+    i = 0
+    for w in exp_c:
+        if isinstance(w, list):
+            g = sorted(got_c[i:i + len(w)])
+            i += len(w)
+            if g != w:
+                return [("callback-drop", "callback destructors after a call: observed %s, expected exactly %s" % (g, w))]
+        else:
+            g = got_c[i] if i < len(got_c) else "<nothing>"
+            i += 1
+            if g != w:
+                return [("callback-arg", "the foreign callback observed `%s` but Rust passed `%s`" % (g, w))]
+    if i != len(got_c):
+        return [("callback-drop", "unexpected extra callback activity: %s" % got_c[i:i + 3])]
+    for g, w in zip(got_r, exp_r):
+        if g != w:
+            return [("callback-ret", "Rust received `%s` from the callback but the foreign function returned `%s`" % (g, w))]
+    if len(got_r) != len(exp_r):
+        return [("callback-ret", "Rust logged %d callback returns, %d expected" % (len(got_r), len(exp_r)))]
+    return []
 
 
 def expected_lines(prog, plan, history=None, reject=None, fixed_writers=True):
@@ -894,7 +1027,7 @@ def build_and_run(art, work, prog, plan, sanitize=True, cc="gcc", opt="-O0", his
     cfile = os.path.join(work, "driver.c")
     open(cfile, "w").write(c_src)
     exe = os.path.join(work, "driver")
-    flags = ["-std=c11", opt, "-w", "-I", r.outdir]
+    flags = ["-std=c11", opt, "-Werror=incompatible-pointer-types", "-Werror=int-conversion", "-Werror=implicit-function-declaration", "-Werror=implicit-int", "-I", r.outdir]
     if sanitize:
         flags += ["-fsanitize=address,undefined", "-fno-sanitize-recover=undefined", "-g"]
     p = subprocess.run([cc] + flags + [cfile, lib, "-lpthread", "-ldl", "-lm", "-o", exe], stdout=subprocess.PIPE, stderr=subprocess.PIPE, text=True)
@@ -980,7 +1113,17 @@ def plan_history(draw, prog, nsteps):
         for q in m["params"]:
             if q[1][0] == "write":
                 c["write"] = hg.value(["write"], "in")
-            elif q[1][0] != "cb":
+            elif q[1][0] == "cb":
+                c.setdefault("cbs", {})[q[0]] = plan_callback(hg, draw, q[1])
+                stats["callbacks"] = stats.get("callbacks", 0) + 1
+                for inv in c["cbs"][q[0]]:
+                    for a, v in zip(q[1][1], inv["args"]):
+                        got = []
+                        boxes_in(prog, a, v, got)
+                        for ty, oid in got:     # the foreign callback owns these and destroys them on the spot
+                            destroyed.append(oid)
+                            stats["owned_to_callback"] = stats.get("owned_to_callback", 0) + 1
+            else:
                 c["args"][q[0]] = hg.value(q[1], "in")
         borrowed_ever |= hg.used
         if m["ret"] is not None:
